@@ -290,7 +290,9 @@ Allowed(r) ==
       [] r.fam = "body"   -> BodyOutcome(r.path, r.body, r.node)
       [] r.fam = "fields" -> FieldOutcome(r.path, r.fc, r.signer, r.loc, r.node)
       [] r.fam = "ctype"  -> {Any4xx} \cup StateOutcome(r.path, r.signer, r.loc, r.node)
-      [] r.fam = "raw"    -> {Any4xx, NoAnswer}
+      \* (an otherwise valid GET /ping carrying an oversized header may also simply be served: whether the header fits
+      \* the server's buffer is not documented, and was seen to depend on how the bytes arrive)
+      [] r.fam = "raw"    -> {Any4xx, NoAnswer} \cup (IF r.body = "hugeheader" THEN {Ok} ELSE {})
 
 (* The documented reply to a successful request: the keys of the JSON object *)
 ReplyKeys(r) ==
@@ -327,6 +329,7 @@ JsonErrorBody(r) == Addressed(r) => \A o \in Allowed(r) : o = Ok \/ o.code \in D
 OkOnlyIfValid(r) ==
     Ok \in Allowed(r) =>
         \/ r.fam = "route" /\ r.path \in {"ping", "nested"}
+        \/ r.fam = "raw" /\ r.body = "hugeheader"        \* GET /ping with an oversized (but well-formed) extra header
         \/ /\ r.path \in Endpoints /\ r.method = "POST" /\ r.node = "up"
            /\ Hard(r.path, r.fc) = {}
            /\ r.body \in {"object", "positional", "dupfield", "extrafield"}
